@@ -384,6 +384,14 @@ def unpeer_is_pathless():
 
 
 # ----------------------------------------------------------------------------------------------
+def _flat(x):
+    if isinstance(x, (list, tuple)):
+        for y in x:
+            yield from _flat(y)
+    else:
+        yield x
+
+
 class Removals(Stream):
     name = 'removals'
     header = ('From Coq Require Import List NArith Bool.\nImport ListNotations.\n'
@@ -410,6 +418,11 @@ class Removals(Stream):
             if fl == 'exp':      # remove_interface always refuses in experiment topologies: keep a few
                 ops = [o for o in ops if o[0] != 'remove_interface' or rng.random() < 0.08]
             rng.shuffle(ops)
+            # by-name removals of an element that has a look-alike sibling (names equal after case folding) go first
+            la = B.lookalike_names(snap)
+            if la:
+                hot = [o for o in ops if any(isinstance(x, str) and x in la for x in _flat(o[1:]))]
+                ops = hot[:3] + [o for o in ops if o not in hot[:3]]
             for o in ops[:per]:
                 out.append({'flavour': fl, 'history': hist, 'op': o})
         return out
